@@ -1,5 +1,7 @@
 import TSSVerif.Model.PsAlgebra
 import TSSVerif.Props.C18
+import TSSVerif.Gen.Ps
+import TSSVerif.Model.PsEquations
 /-!
 # C08 — threshold blind PS signatures are complete
 
@@ -177,5 +179,21 @@ theorem threshold_flow_complete {κ : Type*} [DecidableEq κ] (S : Finset κ) (v
       rw [unblind_eq]
     rw [hagg]
     exact pok_verifies e pp σ.secret h m ρ' c' hne
+
+/-! ## the regenerated equations -/
+
+/-- the arithmetic statements of every function of the scheme, regenerated from the current source, are the ones
+`Model/PsAlgebra.lean` was transcribed from -/
+theorem equations_as_modelled :
+    TSSVerif.Gen.Ps.blind = TSSVerif.Model.PsEq.blind ∧ TSSVerif.Gen.Ps.commit = TSSVerif.Model.PsEq.commit ∧
+    TSSVerif.Gen.Ps.encrypt = TSSVerif.Model.PsEq.encrypt ∧ TSSVerif.Gen.Ps.proveBlinding = TSSVerif.Model.PsEq.proveBlinding ∧
+    TSSVerif.Gen.Ps.roBlinding = TSSVerif.Model.PsEq.roBlinding ∧ TSSVerif.Gen.Ps.verifyBlinding = TSSVerif.Model.PsEq.verifyBlinding ∧
+    TSSVerif.Gen.Ps.signBlind = TSSVerif.Model.PsEq.signBlind ∧ TSSVerif.Gen.Ps.unblind = TSSVerif.Model.PsEq.unblind ∧
+    TSSVerif.Gen.Ps.pokOfSig = TSSVerif.Model.PsEq.pokOfSig ∧ TSSVerif.Gen.Ps.provePoK = TSSVerif.Model.PsEq.provePoK ∧
+    TSSVerif.Gen.Ps.roPoK = TSSVerif.Model.PsEq.roPoK ∧ TSSVerif.Gen.Ps.verifyPoKForm = TSSVerif.Model.PsEq.verifyPoKForm ∧
+    TSSVerif.Gen.Ps.checkCommitmentForm = TSSVerif.Model.PsEq.checkCommitmentForm ∧
+    TSSVerif.Gen.Ps.verifySigPoK = TSSVerif.Model.PsEq.verifySigPoK ∧ TSSVerif.Gen.Ps.localKeyGen = TSSVerif.Model.PsEq.localKeyGen ∧
+    TSSVerif.Gen.Ps.proveKnowledge = TSSVerif.Model.PsEq.proveKnowledge ∧ TSSVerif.Gen.Ps.proverUnBlind = TSSVerif.Model.PsEq.proverUnBlind := by
+  decide +kernel
 
 end TSSVerif.Props.C08
